@@ -32,10 +32,25 @@ def blk(len_, R):
 
 # ---- arrays ---------------------------------------------------------------
 
+class _ArrayTable(dict):
+    """A lines by (R, rank, len); .copies: the same for a copy-constructed array (AC lines)"""
+    copies = None
+
 def parse_array(lines_by_R):
-    A, F, V, I = {}, {}, {}, {}
+    A, F, V, I = _ArrayTable(), {}, {}, {}
+    A.copies = {}
     for R, lines in lines_by_R.items():
         for l in lines:
+            if l[:3] == 'AC ' and ':' in l:
+                head, tail = l.split(':', 1)
+                h = head.split()
+                A.copies[(int(h[1]), int(h[2]), int(h[3]))] = (list(map(int, h[4:8])), tail.split())
+                continue
+            if l[:3] == 'MC ' and ':' in l:
+                head, tail = l.split(':', 1)
+                h = head.split()
+                A.copies[('mine', int(h[1]), int(h[2]), int(h[3]))] = tail.split()
+                continue
             if l[:2] in ('A ', 'F ', 'V ', 'I ') and ':' in l:
                 head, tail = l.split(':', 1)
                 h = head.split()
@@ -54,6 +69,19 @@ def parse_array(lines_by_R):
 def oracle_array_partition(A, F, maxlen):
     """C10's array clauses."""
     fails, n, nontriv = [], 0, 0
+    # a copy-constructed array has the partition of the original: block sizes, start, local length, owner of every index, is_mine
+    copies = getattr(A, 'copies', None) or {}
+    for key, val in sorted(copies.items(), key=lambda kv: str(kv[0])):
+        if not isinstance(key[0], int) or key not in A:
+            continue
+        if A[key][0] != val[0] or A[key][1] != val[1]:
+            fails.append({'what': 'copy-constructed array of length %d on %d ranks: rank %d reports (small, large, start, local length) %s and owners %s, the original %s and %s'
+                                  % (key[2], key[0], key[1], val[0], val[1][:12], A[key][0], A[key][1][:12])})
+        mine = copies.get(('mine',) + key)
+        want = [str(i) for i in range(key[2]) if A[key][1][i] == str(key[1])]
+        if mine is not None and mine != want:
+            fails.append({'what': 'copy-constructed array of length %d on %d ranks: is_mine on rank %d holds for %s, the original owns %s'
+                                  % (key[2], key[0], key[1], mine[:12], want[:12])})
     Rs = sorted({k[0] for k in A})
     for R in Rs:
         for len_ in range(maxlen + 1):
